@@ -22,7 +22,10 @@ import warnings
 from common import bits
 
 PRESET_POLY = ("linear", "quadratic", "polynomial")
-FORMS = ("lists", "arrays", "marrays", "xyds", "xyds.fit", "kwargs", "enum")
+FORMS = ("lists", "arrays", "marrays", "xyds", "xyds.fit", "kwargs", "enum", "xyds.marrays", "derived")
+# xyds.marrays: XYDataSet built from two MeasurementArrays that carry the uncertainties themselves
+# (no xerr=/yerr= keyword); derived: y is an array of DerivedValues (a MeasurementArray + 0, or half
+# the values times 2 -- both exact in binary floating point)
 
 
 def _c(v):
@@ -106,6 +109,10 @@ def err_pattern(rng, kind, n, scale):
         return e
     # per point, spread up to x20
     e = [round(scale * 20 ** rng.uniform(-0.5, 0.5), 6) for _ in range(n)]
+    if kind == "yzeros":
+        # sigma_y: a few ordinates exactly known (C07 only: chi-squared skips them)
+        for i in rng.sample(range(n), rng.randint(1, 3)):
+            e[i] = 0.0
     if kind == "zeros":
         # some (at least one, not all but two) of the abscissae are exactly known
         k = rng.randint(1, max(1, n - 2))
@@ -171,6 +178,9 @@ def gen_case(rng, family=None, noise_free=None, form=None, want_range=None, degr
         scale = 0.01 * (max(abs(v) for v in ys0) + 0.05)
         skind = sy or rng.choice(["none", "common", "point", "point"])
         xkind = sx or rng.choice(["none", "common", "point", "point", "zeros", "one", "edit"])
+        if skind == "yzeros":
+            # only well-posed when every point still has s_i > 0: all sigma_x positive
+            xkind = sx if sx in ("common", "point") else rng.choice(["common", "point"])
         if xkind in ZERO_SX and skind == "none":
             # a point with sigma_x = 0 and no sigma_y would have s_i = 0: not a least-squares problem
             skind = rng.choice(["common", "point"])
@@ -231,6 +241,27 @@ def gen_case(rng, family=None, noise_free=None, form=None, want_range=None, degr
 
 
 SCALES = (1e-6, 1e-3, 1.0, 1e3, 1e6)
+
+
+def gen_centred(rng, units=None):
+    """straight-line fit on abscissae (almost) symmetric about 0: slope and intercept are (almost)
+    uncorrelated -- correlation -mean(x)/rms(x) = 1e-7 ... 1e-2 in magnitude, small but not 0"""
+    n = rng.randint(3, 9) * 2
+    half = [round((i + rng.uniform(0.2, 0.8)) * 0.5, 3) for i in range(n // 2)]
+    rms = math.sqrt(sum(v * v for v in half) / len(half))
+    shift = rng.choice([1.0, -1.0]) * rms * 10 ** rng.uniform(-7, -2)
+    xs = sorted([-v + shift for v in half] + [v + shift for v in half])
+    ptrue = [round(rng.uniform(-2, 2), 3) or 0.5, round(rng.uniform(-2, 2), 3)]
+    skind = rng.choice(["none", "common"])
+    yerr = err_pattern(rng, skind, n, 0.05)
+    ys = [round(ptrue[0] * x + ptrue[1] + rng.gauss(0, 1) * 0.05, 6) for x in xs]
+    case = {"model": "linear", "degree": 1, "form": rng.choice(FORMS), "x": xs, "y": ys,
+            "xerr": None, "yerr": yerr, "ptrue": ptrue, "noise_free": False, "sx": "none",
+            "sy": skind, "xrange": None, "pscale": [1.0, 1.0],
+            "xs": [round(rng.uniform(-1, 1) * 2 * rms, 4) for _ in range(4)]}
+    if units is not None and (units[0] != 1.0 or units[1] != 1.0):
+        rescale(case, float(units[0]), float(units[1]))
+    return case
 
 
 def param_scales(case, xs, ys):
@@ -350,6 +381,23 @@ def call_fit(q, case, drop_xerr=False, use_range=True):
         ds = q.XYDataSet(x, y, **dict(ek, xerr=ed["common"]))
         edit(ds.xdata)
         return q.fit(ds, model, **kw) if form == "xyds" else ds.fit(model, **kw)
+    if form in ("xyds.marrays", "derived"):
+        if ed:
+            xa = edit(q.MeasurementArray(x, ed["common"]))
+        else:
+            xa = q.MeasurementArray(x, xerr) if xerr is not None else q.MeasurementArray(x)
+        if form == "xyds.marrays":
+            ya = q.MeasurementArray(y, yerr) if yerr is not None else q.MeasurementArray(y)
+            ds = q.XYDataSet(xa, ya)
+            return q.fit(ds, model, **kw) if len(x) % 2 else ds.fit(model, **kw)
+        if len(x) % 2:
+            ya = (q.MeasurementArray(y, yerr) if yerr is not None else q.MeasurementArray(y)) + 0
+        else:
+            half = [v / 2 for v in y]
+            herr = None if yerr is None else (
+                yerr / 2 if isinstance(yerr, (int, float)) else [v / 2 for v in yerr])
+            ya = (q.MeasurementArray(half, herr) if herr is not None else q.MeasurementArray(half)) * 2
+        return q.fit(xa, ya, model, **kw)
     if form == "xyds":
         return q.fit(q.XYDataSet(x, y, **ek), model, **kw)
     if form == "xyds.fit":
@@ -382,6 +430,18 @@ def observe(q, case, drop_xerr=False, full=True, use_range=True):
             out["cov"], out["regcorr"] = cov, corr
             if full:
                 out["str"] = str(r)
+                # the same text with numpy asked for 17 significant digits instead of 3 (the result
+                # object offers the reported matrix through str() only)
+                orig = np.array_str
+                try:
+                    np.array_str = lambda a, max_line_width=None, precision=None, \
+                        suppress_small=None: orig(a, max_line_width=10 ** 6, precision=17,
+                                                  suppress_small=False)
+                    out["str_hi"] = str(r)
+                except Exception:  # noqa: BLE001
+                    out["str_hi"] = None
+                finally:
+                    np.array_str = orig
                 out["chi2"] = float(r.chi_squared)
                 out["ndof"] = int(r.ndof)
                 out["res"] = [[float(v.value), float(v.error)] for v in r.residuals]
